@@ -1,5 +1,5 @@
 (* C17 correspondence: observed behaviour of pkg/msg (real WriteMsg / ReadMsg) against the model. *)
-From FRP Require Export Corr.Common Model.Frame Model.MsgObj Proofs.RegistryCheck gen.GenMsg.
+From FRP Require Export Corr.Common Model.Frame Model.MsgObj Proofs.RegistryCheck gen.GenMsg Golden.GoldenMsg.
 Open Scope Z_scope.
 
 Definition today_registry := registry type_consts type_map.
@@ -87,6 +87,32 @@ Fixpoint gv_eqb (a b : gv) {struct a} : bool :=
   | _, _ => false
   end.
 
+(* Released-protocol view of a message: when today's struct has the same shape as the pinned one (same
+   Go field names and kinds, recursively; json names and omitempty flags are what is being compared),
+   the object a RELEASED build would write for the same values must be the object observed on the wire.
+   A renamed json tag or a changed omitempty flag then shows up on a concrete message (reason code 18)
+   in addition to breaking C17_wire_stable.  Structs that gained fields are skipped here (wire_stable
+   covers them). *)
+Fixpoint kind_shape_eqb (a b : kind) : bool :=
+  let fields_eqb := fix go (x y : list field) : bool :=
+    match x, y with
+    | [], [] => true
+    | (g, _, k, _) :: x', (g', _, k', _) :: y' => String.eqb g g' && kind_shape_eqb k k' && go x' y'
+    | _, _ => false
+    end in
+  match a, b with
+  | KStr, KStr | KInt, KInt | KBool, KBool | KMapSS, KMapSS | KStrs, KStrs => true
+  | KStruct x, KStruct y | KStructs x, KStructs y | KPtr x, KPtr y => fields_eqb x y
+  | _, _ => false
+  end.
+
+Definition released_object_ok (sname : string) (fs : list field) (vals : list gv) (obj : list (bytes * jv)) : bool :=
+  match assoc sname golden_structs with
+  | Some gfs =>
+      if kind_shape_eqb (KStruct gfs) (KStruct fs) then jv_eqb (JObj obj) (JObj (enc_obj gfs vals)) else true
+  | None => true
+  end.
+
 (* 0 = agrees; otherwise a reason code *)
 Definition check_case (c : case) : Z :=
   match c with
@@ -109,6 +135,7 @@ Definition check_case (c : case) : Z :=
                    if negb (Z_of_byte (d_type r) =? b) then 12
                    else if negb (c =? blen wire) then 13
                    else if negb (jv_eqb (JObj obj) (JObj (enc_obj fs vals))) then 14
+                   else if negb (released_object_ok sname fs vals obj) then 18
                    else match dec_obj fs obj with
                         | Some vs' => if gv_eqb (VStruct vs') (VStruct vals)
                                       then (if back_equal then 0 else 16) else 15
